@@ -97,13 +97,63 @@ func takeStderr() string {
 }
 
 type MlrOpts struct {
-	Stdin  *string           // nil: empty stdin
-	Files  VFS               // virtual input files
-	Reader func() io.ReadCloser // custom stdin
-	Out    io.WriteCloser    // custom output sink (default: buffer)
+	Stdin  *string                                        // nil: empty stdin
+	Files  VFS                                            // virtual input files
+	Reader func() io.ReadCloser                           // custom stdin
+	Open   func(path string) (io.ReadCloser, error, bool) // custom open hook, consulted before Files
+	Out    io.WriteCloser                                 // custom output sink (default: buffer)
 }
 
 var runMu sync.Mutex
+
+// InvokeMlr runs one invocation on the calling goroutine, with no helper
+// goroutines: the form used under the scheduler (sched build), where library
+// exits and panics surface as verifrt.Result.Fault. Returns stdout and the
+// error ParseCommandLine/Stream returned.
+func InvokeMlr(args []string, o MlrOpts) (string, error) {
+	CaptureStderr()
+	mlrval.VerifResetGlobals()
+	os.Unsetenv("TZ")
+	verifrt.TrapExits(true)
+	verifrt.OpenHookFn = func(path string) (io.ReadCloser, error, bool) {
+		if o.Open != nil {
+			if h, err, ok := o.Open(path); ok {
+				return h, err, true
+			}
+		}
+		if s, ok := o.Files[path]; ok {
+			return bytesRC{bytes.NewReader([]byte(s))}, nil, true
+		}
+		return nil, nil, false
+	}
+	verifrt.StdinFn = func() io.ReadCloser {
+		if o.Reader != nil {
+			return o.Reader()
+		}
+		if o.Stdin != nil {
+			return bytesRC{bytes.NewReader([]byte(*o.Stdin))}
+		}
+		return bytesRC{bytes.NewReader(nil)}
+	}
+	var buf bytes.Buffer
+	argv := append([]string{"mlr"}, args...)
+	options, xf, err := climain.ParseCommandLine(argv)
+	if err != nil {
+		return "", err
+	}
+	if options.DoInPlace {
+		return "", fmt.Errorf("verif: -I is not run in-process")
+	}
+	var out io.WriteCloser = nopWC{&buf}
+	if o.Out != nil {
+		out = o.Out
+	}
+	err = stream.Stream(options.FileNames, options, xf, out, true)
+	return buf.String(), err
+}
+
+// TakeStderr returns and clears what the invocation(s) since the last call wrote to stderr.
+func TakeStderr() string { return takeStderr() }
 
 // RunMlr runs `mlr args...` in-process. args excludes argv[0].
 func RunMlr(args []string, o MlrOpts) (res MlrResult) {
@@ -114,6 +164,11 @@ func RunMlr(args []string, o MlrOpts) (res MlrResult) {
 	os.Unsetenv("TZ")
 	verifrt.TrapExits(true)
 	verifrt.OpenHookFn = func(path string) (io.ReadCloser, error, bool) {
+		if o.Open != nil {
+			if h, err, ok := o.Open(path); ok {
+				return h, err, true
+			}
+		}
 		if s, ok := o.Files[path]; ok {
 			return bytesRC{bytes.NewReader([]byte(s))}, nil, true
 		}
